@@ -75,15 +75,22 @@ func main() {
 	}
 	// exhaustive narrow life-cycles with post-state comparison
 	for _, f := range []run{{"v1only", []string{"form1", "rev1", "prove1"}}, {"v2only", []string{"form2", "rev2", "res2"}}} {
-		p := chain.Shapes()[f.shape]
-		p.GenSC = []chain.AbsOut{{600000, "B"}}
-		cfg := chain.BaseConfig(p)
-		cfg.Addrs = []string{"B"}
-		cfg.Templates = f.tpl
-		cfg.Pay1, cfg.Sizes, cfg.RevShifts, cfg.FormRH = []int{256411}, []int{200}, []int{24}, [][2]int{{250024, 25}}
-		cfg.WinStarts, cfg.WinLens = []int{1}, []int{1}
-		cfg.MaxHeight, cfg.MaxTxns, cfg.MaxReverts = c.Pick(4, 5), 2, 0
-		add(chain.Run(c, cfg, chain.RunOpts{Exhaustive: true, Timeout: 20 * time.Minute}))
+		// one file size per enumeration (height 5 prints more than TLC's output cap allows); thorough enumerates all three
+		sizes := []int{200}
+		if c.Thorough {
+			sizes = []int{200, 0, 64}
+		}
+		for _, size := range sizes {
+			p := chain.Shapes()[f.shape]
+			p.GenSC = []chain.AbsOut{{600000, "B"}}
+			cfg := chain.BaseConfig(p)
+			cfg.Addrs = []string{"B"}
+			cfg.Templates = f.tpl
+			cfg.Pay1, cfg.Sizes, cfg.RevShifts, cfg.FormRH = []int{256411}, []int{size}, []int{24}, [][2]int{{250024, 25}}
+			cfg.WinStarts, cfg.WinLens = []int{1}, []int{1}
+			cfg.MaxHeight, cfg.MaxTxns, cfg.MaxReverts = 4, 2, 0
+			add(chain.Run(c, cfg, chain.RunOpts{Exhaustive: true, Timeout: 20 * time.Minute}))
+		}
 	}
 	// exhaustive v2 revision sequences inside one block with the revision defects (verdicts only)
 	{
